@@ -91,6 +91,18 @@ func preShort(m *model.Model, now int64, c []string) (bool, resp.Val) {
 		if rd("llen", c[1]).I == 0 {
 			return true, resp.Nil()
 		}
+	case "ltrim":
+		if len(c) == 4 {
+			if _, err := strconv.ParseInt(c[2], 10, 64); err != nil {
+				return false, resp.Val{}
+			}
+			if _, err := strconv.ParseInt(c[3], 10, 64); err != nil {
+				return false, resp.Val{}
+			}
+			if rd("llen", c[1]).I == 0 {
+				return true, resp.Status("OK")
+			}
+		}
 	case "spop":
 		if len(c) == 3 {
 			if n, err := strconv.Atoi(c[2]); err != nil || n < 1 {
@@ -220,6 +232,45 @@ func (r *runner) check(c []string, what string) {
 	}
 }
 
+// expiredScenario is a short series that creates a value with known members, gives it a
+// short expiry and then modifies or removes exactly those members while the log time passes
+// the expiry instant: the shape "expire -> time passes -> partial removal of a stored member,
+// no write in between" is too rare in the free grammar (it took the thorough tier to meet it).
+func expiredScenario(t *rapid.T, p *gen.Pool) [][]string {
+	k := rapid.SampledFrom(p.Keys).Draw(t, "skey")
+	m1 := rapid.SampledFrom(p.Members).Draw(t, "sm1")
+	m2 := rapid.SampledFrom(p.Members).Draw(t, "sm2")
+	if m2 == m1 {
+		m2 = m1 + "2"
+	}
+	d := rapid.SampledFrom([]string{"1", "2", "3"}).Draw(t, "sdur")
+	var create, expire []string
+	var mod [][]string
+	switch rapid.IntRange(0, 4).Draw(t, "sfam") {
+	case 0:
+		create, expire = []string{"hmset", k, m1, "1", m2, "2"}, []string{"hexpire", k, d}
+		mod = [][]string{{"hdel", k, m1}, {"hdel", k, m2, m1}, {"hincrby", k, m1, "1"}, {"hsetnx", k, m1, "v"}, {"hset", k, m2, "v"}, {"hclear", k}, {"hpersist", k}, {"hexpire", k, "50"}}
+	case 1:
+		create, expire = []string{"rpush", k, m1, m2, "c"}, []string{"lexpire", k, d}
+		mod = [][]string{{"lpop", k}, {"rpop", k}, {"ltrim", k, "1", "-1"}, {"ltrim", k, "0", "0"}, {"lset", k, "0", "z"}, {"lpush", k, "y"}, {"lclear", k}, {"lpersist", k}}
+	case 2:
+		create, expire = []string{"sadd", k, m1, m2}, []string{"sexpire", k, d}
+		mod = [][]string{{"srem", k, m1}, {"spop", k}, {"sadd", k, m1}, {"sclear", k}, {"spersist", k}}
+	case 3:
+		create, expire = []string{"zadd", k, "1", m1, "2", m2, "3", "zz"}, []string{"zexpire", k, d}
+		mod = [][]string{{"zrem", k, m1}, {"zremrangebyscore", k, "1.5", "+inf"}, {"zremrangebyscore", k, "-inf", "+inf"}, {"zremrangebyrank", k, "0", "0"}, {"zremrangebyrank", k, "1", "-1"},
+			{"zremrangebylex", k, "[" + m1, "+"}, {"zremrangebylex", k, "-", "[" + m2}, {"zincrby", k, "1", m1}, {"zadd", k, "5", m2}, {"zclear", k}, {"zpersist", k}}
+	default:
+		create, expire = []string{"set", k, "10"}, []string{"expire", k, d}
+		mod = [][]string{{"incr", k}, {"append", k, "x"}, {"getset", k, "n"}, {"setnx", k, "n"}, {"setrange", k, "1", "y"}, {"persist", k}, {"expire", k, "50"}}
+	}
+	out := [][]string{create, expire}
+	for i := rapid.IntRange(1, 3).Draw(t, "nmod"); i > 0; i-- {
+		out = append(out, mod[rapid.IntRange(0, len(mod)-1).Draw(t, "smod")])
+	}
+	return out
+}
+
 func runWaitCompact(t *rapid.T, engine string) {
 	nulFree := engine == "mem" && known.Active("C20-mem-radix-seek-lowerbound-nul")
 	pool := gen.DrawPool(t, nulFree)
@@ -252,9 +303,19 @@ func runWaitCompact(t *rapid.T, engine string) {
 	labels := map[string]bool{}
 	var canon []string
 	n := rapid.IntRange(1, 50).Draw(t, "nsteps")
+	var queued [][]string
 	for i := 0; i < n; i++ {
+		if len(queued) == 0 && rapid.IntRange(0, 14).Draw(t, "scenario") == 0 {
+			queued = expiredScenario(t, pool)
+			labels["scenario_modify_stored_member_around_expiry"] = true
+		}
 		// advance log time
-		switch rapid.IntRange(0, 9).Draw(t, "tick") {
+		tick := rapid.IntRange(0, 9).Draw(t, "tick")
+		if len(queued) > 0 {
+			// stay around the expiry instant of the scenario: small steps
+			tick = rapid.SampledFrom([]int{0, 3, 4, 5, 5, 6, 6}).Draw(t, "stick")
+		}
+		switch tick {
 		case 0, 1, 2:
 		case 3:
 			r.cur++
@@ -285,7 +346,7 @@ func runWaitCompact(t *rapid.T, engine string) {
 			}
 			lastTs = r.cur
 		}
-		if rapid.IntRange(0, 19).Draw(t, "bg") == 0 {
+		if len(queued) == 0 && rapid.IntRange(0, 19).Draw(t, "bg") == 0 {
 			part.KV.OptimizeDB("")
 			labels["compaction_round"] = true
 			canon = append(canon, "compact")
@@ -296,7 +357,12 @@ func runWaitCompact(t *rapid.T, engine string) {
 			}
 			continue
 		}
-		c := g.Command(t, pool)
+		var c []string
+		if len(queued) > 0 {
+			c, queued = queued[0], queued[1:]
+		} else {
+			c = g.Command(t, pool)
+		}
 		canon = append(canon, fmt.Sprintf("%d:%s", r.cur-(r.t0-2000)*1e9, strings.Join(c, "\x1f")))
 		ck := string(famOf(c[0])) + c[1]
 		sec := r.cur / 1e9
@@ -546,6 +612,29 @@ func TestKnownAppendOnExpiredKey(t *testing.T) {
 		}
 		if v := sim.Do("setrange", "default:t:r", "0", "x").One(); v.Kind != 'i' || v.I != 1 {
 			return true, "SETEX r 1 abcdef; (log time +2s) SETRANGE r 0 x -> " + v.String() + ", expected :1"
+		}
+		return false, ""
+	})
+}
+
+func TestKnownPartialRemovalOnExpired(t *testing.T) {
+	known.Probe(t, "C10-partial-removal-counts-expired-members", func() (bool, string) {
+		sim, err := simkv.New(simkv.Options{Engine: "pebble"})
+		if err != nil {
+			return false, "HARNESS: " + err.Error()
+		}
+		defer sim.Close()
+		cur := (time.Now().Unix() - 2000) * 1e9
+		sim.Parts[0].Raft.Stamp = func() int64 { return cur }
+		sim.Do("hmset", "default:t:h", "a", "1", "b", "2")
+		sim.Do("zadd", "default:t:z", "1", "a", "2", "b", "3", "c")
+		sim.Do("hexpire", "default:t:h", "3")
+		sim.Do("zexpire", "default:t:z", "3")
+		cur += 5e9
+		for _, c := range [][]string{{"hdel", "default:t:h", "a"}, {"zremrangebyscore", "default:t:z", "1.5", "+inf"}, {"zremrangebyrank", "default:t:z", "0", "0"}, {"zremrangebylex", "default:t:z", "[b", "+"}} {
+			if v := sim.Do(c...).One(); v.Kind != 'i' || v.I != 0 {
+				return true, "collection with 3 s expiry; (log time +5s) " + gen.Quote(c) + " -> " + v.String() + ", expected :0"
+			}
 		}
 		return false, ""
 	})
